@@ -12,7 +12,7 @@ FAULT_FOCUS = {
     "C02": ["construct_completed", "construct_assigned", "construct_dup", "construct_cpu0", "construct_ram0",
             "construct_empty"],
     "C03": ["oversell_cpu", "oversell_ram", "oversell_cpu", "oversell_ram", "sus_not_boundary", "opcount", "opcount"],
-    "C04": [],
+    "C04": ["oversell_ram", "oversell_ram", "oversell_during_writeout"],
     "C05": [],
     "C09": ["pool_range_asg", "pool_range_sus", "pool_range_asg"],
     "C10": ["sus_not_boundary", "sus_not_boundary", "sus_suspending", "sus_suspended", "sus_unknown",
@@ -47,6 +47,10 @@ def qty(r, exact, kinds=("zero", "tiny", "small", "mid", "big")):
     k = r.choice(kinds)
     if k == "zero":
         return F(0)
+    if k == "edge":
+        # just below / above a whole number of ticks, far outside float rounding (floor() must still decide)
+        eps = F(r.choice([3, 10, 100, 400, 4000, 10 ** 5]), 10 ** 9)
+        return F(r.randint(1, 12)) + r.choice([-1, -1, 1]) * eps
     if k == "tiny":
         return r.choice([F(1, 4), F(1, 2), F(3, 4)]) if exact else r.choice([F(13, 100), F(1, 2), F(87, 100)])
     if k == "small":
@@ -58,6 +62,32 @@ def qty(r, exact, kinds=("zero", "tiny", "small", "mid", "big")):
     if exact:
         return F(n) + r.choice([0, 0, F(1, 2), F(1, 4)])
     return F(n) + r.choice([F(13, 100), F(37, 100), F(1, 2), F(71, 100), F(9, 10)])
+
+
+def gen_hair(r, focus, tier="quick"):
+    """A pool that crosses its capacity by a hair: fixed-memory containers whose demands add up to exactly the capacity
+    plus one that needs 2^-30 .. 2^-40 GB.  Dyadic throughout, so every float operation is exact and 'exceeds' is strict."""
+    tps = r.choice([1, 2, 4, 8])
+    unit = F(20, tps)
+    capq = r.choice([8, 16, 32, 64])
+    cap = capq * unit
+    T = r.randint(30, 80)
+    cfg = {"tps": tps, "pools": 1, "cpus": 16, "ram": fstr(cap), "over": True, "multi": True, "exact": True, "ticks": T}
+    parts = r.choice([[F(1, 2), F(1, 4), F(1, 4)], [F(1, 2), F(1, 2)], [F(3, 4), F(1, 8), F(1, 8)], [F(1, 4)] * 4, [F(1)]])
+    hair = F(1, 2 ** r.choice([30, 36, 40])) * r.choice([1, 1, 3])     # (capacity < 2048 GB: ulp 2^-42, so the sums stay exact)
+    mems = [p_ * cap for p_ in parts] + [hair]
+    if r.random() < 0.3:
+        mems[0] += hair          # the hair sits on a big container instead of being one of its own
+        mems.pop()
+    r.shuffle(mems)
+    pipes = []
+    for m in mems:
+        dur = F(r.randint(T, 2 * T), tps)
+        pipes.append({"prio": r.choice(["QUERY", "INTERACTIVE", "BATCH_PIPELINE"]), "at": r.randint(0, 3),
+                      "ops": [{"par": [], "segs": [[fstr(dur), "const", fstr(m), "0"]]}]})
+    knobs = {"p_asg": 0.8, "p_op": 1.0, "p_sus": 0, "retry": False, "cpus": ["1"], "alloc_w": [0, 0, 0, 1],
+             "fault": None, "fault_tick": 0}
+    return {"kind": "ex", "focus": focus, "cfg": cfg, "pipes": pipes, "knobs": knobs, "hair": True}
 
 
 def gen_storm(r, focus, tier="quick"):
@@ -115,6 +145,8 @@ def gen(r, focus, tier="quick"):
         npipes = r.randint(3, 10)
     size_kinds = r.choice([("zero", "tiny", "small", "mid"), ("small", "mid"), ("zero", "small", "mid", "big"),
                            ("tiny", "small"), ("small", "mid", "big")])
+    if not exact and r.random() < (0.3 if focus == "C05" else 0.1):
+        size_kinds = size_kinds + ("edge", "edge")
     grow_p = {"C11": 0.8, "C04": 0.6}.get(focus, r.choice([0.2, 0.5, 0.8]))
     pipes = []
     for pi in range(npipes):
@@ -125,6 +157,8 @@ def gen(r, focus, tier="quick"):
             continue
         nops = r.randint(1, 5)
         shape = r.choice(["chain", "chain", "fanout", "fanin", "diamond", "multiroot", "random"])
+        if focus == "C01" and r.random() < 0.06:
+            nops, shape = r.choice([12, 14, 20]), "fanin"       # a sink behind many parents
         par = dag_parents(r, nops, shape)
         ops = []
         for oi in range(nops):
@@ -154,7 +188,7 @@ def gen(r, focus, tier="quick"):
         if r.random() < 0.25:
             pipes[-1]["scratch_parents"] = True
     faults = FAULT_FOCUS.get(focus, [])
-    pf = {"C04": 0.05, "C05": 0.05, "C11": 0.05}.get(focus, 0.5)
+    pf = {"C04": 0.15, "C05": 0.05, "C11": 0.05}.get(focus, 0.5)
     fault = None
     if r.random() < pf:
         fault = r.choice(faults) if faults and r.random() < 0.8 else r.choice(Chaos.FAULTS)
